@@ -133,6 +133,13 @@ class MainWorld(SessionWorld):
                     world.cbs.append("onChallenge")
                     if beh["onChallenge"] == "raise":
                         raise RuntimeError("no credentials")
+                    if beh["onChallenge"] == "pending":
+                        # the signature is computed asynchronously (a key store, a user prompt): it arrives - or fails -
+                        # later, possibly after the connection has gone
+                        f = world.fw.new_future(world)
+                        world.pending_user.append(("onChallenge", f))
+                        world.run.probe("onChallenge-pending")
+                        return f
                     return "signature-%d" % len([c for c in world.cbs if c == "onChallenge"])
 
                 def onWelcome(self, msg):
@@ -187,6 +194,10 @@ class MainWorld(SessionWorld):
     def on_send_attempt(self, msg):
         if isinstance(msg, self.M.Goodbye):
             self.goodbye_attempts = getattr(self, "goodbye_attempts", 0) + 1
+        elif isinstance(msg, self.M.Abort):
+            # the client itself gives the session up (its onChallenge() failed): the same situation whether or not the
+            # ABORT still gets out through a transport that is closing already
+            self.client_aborted = True
 
     def on_sent(self, msg):
         M = self.M
@@ -231,7 +242,7 @@ class MainWorld(SessionWorld):
         if ch.flag("fail-it", 0.3):
             self.call(self.fw.reject_future, f, RuntimeError("late failure in %s" % name))
         else:
-            self.call(self.fw.resolve_future, f, None)
+            self.call(self.fw.resolve_future, f, "signature-late" if name == "onChallenge" else None)
         self.settle()
 
     def lose(self, was_clean):
